@@ -1,9 +1,28 @@
 """C07 - recursive schemas produce finitely sized types."""
-import os, time, json
+import os, sys, time, json
 import vlib
 
 CFGS = {"quick": ["C07_q1.cfg", "C07_q2.cfg", "C07_q3s.cfg"],
         "thorough": ["C07_t1.cfg", "C07_t2.cfg", "C07_q3.cfg"]}
+
+
+def cycles_model(tier, bcpath):
+    """Implementation model Cycles (cycles.rs break_cycles): (1) TLC checks the machine itself over
+    every small containment multigraph (Acyclic, OnlyCycles, ActiveIsStack, termination);
+    (2) the steps recorded from the real break_cycles (hook cycle_event) while the C07 cases were
+    ingested are validated, step by step, against the machine by Trace_Cycles.  Divergences are
+    reported, not judged (the C07 verdict comes from the containment contract)."""
+    _, st, _ = vlib.run_mc("MC_Cycles.tla", "Cycles_%s.cfg" % tier, "Cycles", workers=6, timeout=3000)
+    ev = vlib.read_ndjson(bcpath)
+    _, ts = vlib.run_trace("Trace_Cycles.tla", "Trace_Cycles.cfg", ev, "Cycles", shards=14, timeout=3000)
+    div = ts.pop("diverge", [])
+    if div:
+        print("NOTE: the implementation model spec/Cycles.tla does not explain %d recorded step(s) of break_cycles "
+              "(first: %s)" % (len(div), json.dumps(div[0])[:400]), file=sys.stderr, flush=True)
+    os.remove(bcpath)
+    return {"design_check": st, "runs": sum(1 for e in ev if e["ev"] == "bc_run"), "steps": len(ev),
+            "snips": sum(len(e.get("snip", [])) for e in ev if e["ev"] == "bc_visit"),
+            "trace": ts, "divergences_from_code": len(div), "divergence_samples": div[:3]}
 
 
 def run(tier, seed, replay=None):
@@ -26,6 +45,7 @@ def run(tier, seed, replay=None):
     events = vlib.read_ndjson(epath)
     bad, tstats = vlib.run_trace("Trace_C07.tla", "Trace_C07.cfg", events, "C07", shards=14, timeout=3000)
     boxed = sum(1 for e in events if any(x["kind"] == "box" for x in e["snap"]))
+    cyc = cycles_model(tier, epath + ".bc") if replay is None else {}
 
     def replay_of(v):
         i = v["case"] - 1
@@ -40,6 +60,7 @@ def run(tier, seed, replay=None):
                  "vec, map); non-trivial = the schema-level by-value graph has a cycle",
          "distinct_nontrivial": sum(1 for c in cases if not c["schema_acyclic"]),
          "cases_with_box": boxed,
+         "impl_model_cycles": cyc,
          "configs": CFGS.get(tier)},
         ["by-value containment = every edge except those leaving Box/Vec/map/set entries",
          "the containment graph is observed twice: internal snapshot (hook) and Type::details() walk from add_type(&{$ref})",
